@@ -266,6 +266,28 @@ def check_snapshot(ctx):
                              "a successful snapshot has written the record")
 
 
+def check_manifest_reader_fatal(ctx):
+    """Damage in the MANIFEST is always fatal for open (only the WAL may be
+    forgiven without paranoid_checks): the reader's reporter writes into the
+    status that ldb_versions_recover returns, unconditionally - replay of a
+    damaged descriptor would come up on a stale prefix of the edit history
+    and the collector would delete the tables of the dropped edits."""
+    f = ctx.fn("ldb_versions_recover", "src/version_set.c")
+    st = [key(e["rhs"]) for b, i, e in f.events("asg") if key(e["lhs"]) == "reporter.status"]
+    ctx.check(st == ["(&rc)"], "T2-manifest-checksum", "reporter-status", f.name, f.loc,
+              "a damaged MANIFEST record always fails the recovery", "the MANIFEST reader reports into %s" % st)
+    rp = [key(e["rhs"]) for b, i, e in f.events("asg") if key(e["lhs"]) == "reporter.corruption"]
+    ctx.check(len(rp) == 1, "T2-manifest-checksum", "reporter-callback", f.name, f.loc, "a corruption callback is installed", "reporter.corruption = %s" % rp)
+    if rp and ctx.P.has_fn(rp[0]):
+        cb = ctx.fn(rp[0], "src/version_set.c")
+        sts = [(b, i, e) for (b, i, e) in cb.events("asg") if "status" in key(e["lhs"]) and key(e["lhs"]).startswith("(*")]
+        g = xgraph(ctx.P, cb)
+        ctx.check(len(sts) == 1 and key(sts[0][2]["rhs"]) == "status" and
+                  not any(a[1] == "reporter->status" or "paranoid" in a[1] for a in (g.must_at(sts[0][0], sts[0][1]) or ()) if a[0] in ("!=", "==") and a[2] == "0" and "(*reporter->status)" not in a[1]),
+                  "T2-manifest-checksum", "callback-stores", cb.name, cb.loc,
+                  "the callback records the first error", "corruption callback stores %s" % [key(e["rhs"]) for b, i, e in sts])
+
+
 def check_edit_numbers(ctx):
     """ldb_versions_apply fills in the log numbers an edit does not carry and
     leaves alone the ones it does: the edit that retires a log says so by
@@ -343,6 +365,7 @@ def check_current(ctx):
 
 
 def check(ctx):
+    check_manifest_reader_fatal(ctx)
     from . import c19 as _c19
     _c19.check_descriptor(ctx)     # repair installs its MANIFEST-000001 so that CURRENT names an existing file
     check_edit_numbers(ctx)
